@@ -51,8 +51,6 @@ def replay(tree0, events, run: pipe.Run):
             for k in below(src):
                 del tree[k]
         elif cls.endswith("Moved"):
-            if synth:
-                continue                  # carried by the parent's move (checked by C03 / C14)
             if not src:                   # full emitter: arrival from outside
                 if in_scope(run, dest):
                     tree[dest] = isdir
@@ -60,6 +58,13 @@ def replay(tree0, events, run: pipe.Run):
             if not dest:                  # full emitter: departure
                 for k in below(src):
                     del tree[k]
+                continue
+            if src not in tree:
+                # the source is not known to the replayed tree (e.g. the synthetic event of a descendant whose
+                # parent's move already carried it, or whose creation was never announced separately):
+                # applying the move can only mean that the destination exists now
+                if in_scope(run, dest):
+                    tree[dest] = isdir
                 continue
             for k in below(dest):
                 del tree[k]
@@ -92,6 +97,7 @@ def provenance(run: pipe.Run, upto=None):
     """How each directory currently in the tree came to be there, from the operation log:
     path tuple -> set of tags."""
     tags = {("R",): {"root"}, ("O",): {"outside-root"}}
+    stale = set()               # in-tree paths of directories at the moment they were moved out of the tree
     for p, d in [(tuple(os.path.relpath(os.fsdecode(x), run.sc).split("/")), isd) for x, isd in run.init_fs]:
         if d and len(p) > 1:
             tags[p] = {"present-at-start"}
@@ -109,12 +115,17 @@ def provenance(run: pipe.Run, upto=None):
             tags.pop(p, None)
         elif ent["kind"] == "rename" and p in tags:
             q = tuple(ent["path2"])
+            stale_before = set(stale)
             moved = {k: v for k, v in tags.items() if k[:len(p)] == p}
             for k in moved:
                 del tags[k]
             for k, v in moved.items():
                 nv = set(v)
+                if p[0] == "R" and q[0] == "O":
+                    stale.add(k)
                 if k == p:
+                    if p in pending_dirops and p in stale_before:
+                        nv.add("first-seen-under-the-stale-path-of-a-directory-that-was-moved-out")
                     if p[0] == "O" and q[0] == "R":
                         nv.add("moved-in-from-outside")
                     if p[0] == "R" and q[0] == "O":
@@ -235,6 +246,21 @@ def contract(run: pipe.Run, kind, p, q, was_dir, existed_q, descendants):
     return []
 
 
+def ever_existed(run: pipe.Run, path: bytes, isdir: bool):
+    """Did the history ever have an entry of that kind under that path (created there or carried there by a rename)?"""
+    for e in run.log:
+        if e["a"] != "op" or not e.get("ok"):
+            continue
+        if e["kind"] in ("touch", "mkdir") and e["p"] == path and (e["kind"] == "mkdir") == isdir:
+            return True
+        if e["kind"] == "rename":
+            if e["q"] == path and e["was_dir"] == isdir:
+                return True
+            if e["was_dir"] and any(e["q"] + s == path and d == isdir for s, d in e["descendants"]):
+                return True
+    return False
+
+
 def justified(run: pipe.Run, ev, ops_so_far):
     """Is the delivered event explained by the operations executed so far (their paths as absolute bytes)?
     ops_so_far: list of dicts {kind, p, q, was_dir, descendants}. Returns None or a reason string."""
@@ -264,8 +290,8 @@ def justified(run: pipe.Run, ev, ops_so_far):
             if not synth and ((k == "touch" and p == src and not isdir) or (k == "mkdir" and p == src and isdir)
                               or (k == "rename" and q == src and wd == isdir)):
                 return None
-            if synth and k == "rename" and wd and any(q + s == src and d == isdir for s, d in o["descendants"]):
-                return None
+            if synth and k == "rename" and wd and src.startswith(q + b"/") and ever_existed(run, src, isdir):
+                return None       # a descendant of a directory that has just arrived
             if synth and k == "mkdir":
                 # _recursive_simulate: entries found below a directory that has just been created
                 pass
@@ -282,9 +308,9 @@ def justified(run: pipe.Run, ev, ops_so_far):
             if not synth and k == "rename" and wd == isdir and ((p == src and q == dest) or (not src and q == dest)
                                                                 or (p == src and not dest)):
                 return None
-            if synth and k == "rename" and wd and any(p + s == src and q + s == dest and d == isdir
-                                                      for s, d in o["descendants"]):
-                return None
+            if synth and k == "rename" and wd and src.startswith(p + b"/") and dest.startswith(q + b"/") \
+                    and src[len(p):] == dest[len(q):] and ever_existed(run, dest, isdir):
+                return None       # a descendant of the moved directory: same relative path under the old name
         elif what in ("Modified",):
             if k in ("write", "chmod") and p == src and not isdir and not synth:
                 return None
